@@ -5,6 +5,7 @@ package main
 import (
 	"fmt"
 	"go/token"
+	"go/types"
 	"strings"
 
 	"golang.org/x/tools/go/ssa"
@@ -13,7 +14,7 @@ import (
 func init() {
 	register(&propDef{
 		id:      "C21",
-		explain: "Structural necessary conditions of 'an https request never travels over a plaintext connection and vice versa': (R1) in HostClient's single request path every path to the transport passes, unconditionally, the comparison of HostClient.IsTLS with the scheme of the request URI obtained through Request.URI() (which forces the lazy parse), taken on its 'equal' outcome - a mismatch returns an error before anything is sent; (R2) Client.Do picks the host-client map with the same boolean it stores as IsTLS in the HostClient it creates, and that boolean is true exactly under the isHTTPS test; unsupported schemes return an error; (R3) dialAddr returns, when asked for TLS and the dialled connection is not already TLS, only the result of tls.Client / the TLS handshake; dialHostHard passes HostClient.IsTLS to it; (R4) PipelineClient hands its IsTLS to every connection client it creates; (R5) when a redirect Location is resolved against the current URL, every re-parse of the URI either parses text rebuilt from the base scheme and host or is followed by a look at the (saved) scheme - so a reference without a scheme keeps https. (R6) a function that copies the relative form of the parsed URI (URI.RequestURI(): no scheme, no host) into the request header does not also mark the URI as not parsed - otherwise the scheme the caller set is forgotten and rebuilt as http. (E8) the idle-connection list of a HostClient is accessed under connsLock only, and its elements only through a header taken while the lock is held (or after the field was swapped out): a connection struct recycled while still listed would be filled by another HostClient's dial. Not decided: LBClient over user-supplied clients, TLS correctness itself.",
+		explain: "Structural necessary conditions of 'an https request never travels over a plaintext connection and vice versa': (R1) in HostClient's single request path every path to the transport passes, unconditionally, the comparison of HostClient.IsTLS with the scheme of the request URI obtained through Request.URI() (which forces the lazy parse), taken on its 'equal' outcome - a mismatch returns an error before anything is sent; (R2) Client.Do picks the host-client map with the same boolean it stores as IsTLS in the HostClient it creates, and that boolean is true exactly under the isHTTPS test; unsupported schemes return an error; (R3) dialAddr returns, when asked for TLS and the dialled connection is not already TLS, only the result of tls.Client / the TLS handshake; dialHostHard passes HostClient.IsTLS to it; (R4) PipelineClient hands its IsTLS to every connection client it creates; (R5) when a redirect Location is resolved against the current URL, every re-parse of the URI either parses text rebuilt from the base scheme and host or is followed by a look at the (saved) scheme - so a reference without a scheme keeps https. (R6) a function that copies the relative form of the parsed URI (URI.RequestURI(): no scheme, no host) into the request header does not also mark the URI as not parsed - otherwise the scheme the caller set is forgotten and rebuilt as http. (E8) the idle-connection list of a HostClient is accessed under connsLock only, and its elements only through a header taken while the lock is held (or after the field was swapped out): a connection struct recycled while still listed would be filled by another HostClient's dial. (R-tlscfg) no function that receives a *tls.Config stores through it: per-address settings (ServerName) go into a fresh object or a Clone, never into the configuration the application shares between all hosts of a client. Not decided: LBClient over user-supplied clients, TLS correctness itself.",
 		run:     runC21,
 	})
 }
@@ -428,6 +429,7 @@ func schemeSurvivesResolution(p *Prog, r *Report) {
 	}
 	r.Floor("R5", "re-parses during reference resolution", n, 3)
 	schemeNotForgotten(p, r)
+	callerTLSConfigNotWritten(p, r)
 	// a pooled connection belongs to one HostClient - one host, one scheme. The idle list is guarded by connsLock;
 	// a slice header taken under the lock and walked after it (E8-alias) lets a released connection be closed and its
 	// clientConn recycled while it is still listed, after which another HostClient's dial fills the recycled
@@ -507,4 +509,83 @@ func schemeNotForgotten(p *Prog, r *Report) {
 			"the function writes URI.RequestURI() (no scheme, no host) into the header and also marks the URI as not parsed: the next URI() rebuilds it from Host + relative form with scheme http, and Client.Do sends a request addressed to https over the plaintext pool")
 	}
 	r.Floor("R6", "functions copying the relative URI form into the header", n, 2)
+}
+
+// callerTLSConfigNotWritten (C21.R-tlscfg): the *tls.Config an application gives a client is shared by every
+// HostClient of that Client and by every address of a HostClient. The per-address configuration (ServerName taken
+// from the address) must therefore be written into a private copy: no function that receives a *tls.Config as a
+// parameter stores through it - the base of every store into a tls.Config field resolves, on every phi edge, to a
+// fresh object or to the result of Clone, never to the parameter. A ServerName written into the shared object makes
+// every later https host of the client be dialled (SNI and certificate verification) as the first one.
+func callerTLSConfigNotWritten(p *Prog, r *Report) {
+	isTLSConfigPtr := func(t types.Type) bool { return strings.HasSuffix(t.String(), "*crypto/tls.Config") }
+	n := 0
+	for _, fn := range p.funcsIn("") {
+		var params []*ssa.Parameter
+		for _, prm := range fn.Params {
+			if isTLSConfigPtr(prm.Type()) {
+				params = append(params, prm)
+			}
+		}
+		if len(params) == 0 || fn.Blocks == nil {
+			continue
+		}
+		n++
+		var mayBeParam func(v ssa.Value, d int) *ssa.Parameter
+		mayBeParam = func(v ssa.Value, d int) *ssa.Parameter {
+			if d > 8 {
+				return nil
+			}
+			switch x := v.(type) {
+			case *ssa.Parameter:
+				for _, prm := range params {
+					if x == prm {
+						return prm
+					}
+				}
+			case *ssa.Phi:
+				for _, e := range x.Edges {
+					if prm := mayBeParam(e, d+1); prm != nil {
+						return prm
+					}
+				}
+			case *ssa.UnOp:
+				// a local the parameter was spilled to
+				if al, ok := x.X.(*ssa.Alloc); ok && x.Op == token.MUL {
+					for _, ref := range *al.Referrers() {
+						if st, ok := ref.(*ssa.Store); ok && st.Addr == ssa.Value(al) {
+							if prm := mayBeParam(st.Val, d+1); prm != nil {
+								return prm
+							}
+						}
+					}
+				}
+			}
+			return nil
+		}
+		bad := ""
+		var pos token.Pos
+		for _, b := range fn.Blocks {
+			for _, in := range b.Instrs {
+				st, ok := in.(*ssa.Store)
+				if !ok {
+					continue
+				}
+				fa, ok := st.Addr.(*ssa.FieldAddr)
+				if !ok || !isTLSConfigPtr(fa.X.Type()) {
+					continue
+				}
+				if prm := mayBeParam(fa.X, 0); prm != nil && bad == "" {
+					bad = fmt.Sprintf("field %s of the configuration received as parameter %s is assigned", fieldName(fa.X.Type(), fa.Field), prm.Name())
+					pos = st.Pos()
+				}
+			}
+		}
+		if pos == token.NoPos {
+			pos = fn.Pos()
+		}
+		r.Check("R-tlscfg", funcName(fn)+": the caller's tls.Config is never written (per-address settings go into a private copy)", bad == "", p.Pos(pos),
+			bad+": the object is the one the application configured and every other host of the client shares - a ServerName derived from one address is then used for the handshake with all the others, so a request for one https host is sent over a connection that only proved to be another host")
+	}
+	r.Floor("R-tlscfg", "functions that receive a *tls.Config", n, 1)
 }
